@@ -269,6 +269,7 @@ pub fn dispatch(cmd: &str, name: &str, arg: &str) -> Option<String> {
     if name == "feedback.tied" { return dispatch_tied(cmd, name, arg); }
     if name.starts_with("objective.") { return dispatch_objective(cmd, name, arg); }
     if name == "network.gradient" { return dispatch_netgrad(cmd, name, arg); }
+    if name == "dropout.leak" { return dispatch_dropout(cmd, name, arg); }
     if name.starts_with("feedback.") { return dispatch_feedback(cmd, name, arg); }
     if name.starts_with("reshape.") { return dispatch_reshape(cmd, name, arg); }
     if !["conv", "deconv", "pool"].iter().any(|p| name.starts_with(p)) { return None; }
@@ -988,6 +989,80 @@ pub fn dispatch_netgrad(cmd: &str, name: &str, arg: &str) -> Option<String> {
     }
     let mut tried = 0usize;
     for a in 0..5usize { for s in 0..4u64 {
+        tried += 1;
+        if let Err(e) = one(a, s) { return Some(format!("{{\"failed\":true,\"tried\":{},\"input\":{{\"architecture\":{},\"seed\":{}}},\"detail\":{:?}}}", tried, a, s, e)); }
+    }}
+    Some(format!("{{\"failed\":false,\"tried\":{}}}", tried))
+}
+
+// ------------------------------------------------------------------------------------------------ dropout never leaks (C09)
+fn drop_arch(arch: usize, dropout: Option<f32>) -> crate::network::Network {
+    use crate::network::Network;
+    match arch {
+        0 => { let mut n = Network::new(Shape::Single(3)); n.dense(4, Activation::Tanh, true, dropout); n.dense(2, Activation::Linear, true, dropout); n }
+        1 => { let mut n = Network::new(Shape::Triple(1, 3, 3)); n.convolution(2, (2, 2), (1, 1), (0, 0), (1, 1), Activation::Tanh, dropout); n.dense(2, Activation::Linear, true, dropout); n }
+        2 => { let mut n = Network::new(Shape::Triple(1, 2, 2)); n.deconvolution(1, (2, 2), (1, 1), (0, 0), Activation::Tanh, dropout); n.maxpool((2, 2), (1, 1)); n.dense(2, Activation::Linear, false, dropout); n }
+        _ => { let mut n = Network::new(Shape::Single(2));
+               n.feedback(vec![crate::feedback::Layer::Dense(2, Activation::Tanh, true, dropout)], 2, false, false, crate::feedback::Accumulation::Mean);
+               n.dense(2, Activation::Linear, true, dropout); n }
+    }
+}
+fn copy_params(from: &crate::network::Network, to: &mut crate::network::Network) {
+    use crate::network::Layer::*;
+    for (a, b) in from.layers.iter().zip(to.layers.iter_mut()) {
+        match (a, b) {
+            (Dense(x), Dense(y)) => { y.weights = x.weights.clone(); y.bias = x.bias.clone(); }
+            (Convolution(x), Convolution(y)) => { y.kernels = x.kernels.clone(); }
+            (Deconvolution(x), Deconvolution(y)) => { y.kernels = x.kernels.clone(); }
+            (Feedback(x), Feedback(y)) => { for (p, q) in x.layers.iter().zip(y.layers.iter_mut()) { if let (Dense(u), Dense(v)) = (p, q) { v.weights = u.weights.clone(); v.bias = u.bias.clone(); } } }
+            _ => {}
+        }
+    }
+}
+/// a network with dropout on every layer that has one, trained with validation data; afterwards (i) the validation metrics reported by learn() for
+/// the last epoch are those of validate() on the trained network, (ii) predictions equal those of the same weights in a network configured
+/// without dropout, (iii) a second validate() gives the same numbers (no randomness left)
+pub fn dropout_one(arch: usize, seed: u64) -> Result<(), String> {
+    let mut rng = Lcg(seed.wrapping_mul(6151).wrapping_add(arch as u64));
+    let mut net = drop_arch(arch, Some(0.5));
+    net.set_objective(crate::objective::Objective::MSE, None);
+    net.set_optimizer(crate::optimizer::SGD::create(0.01, None));
+    let mk = |rng: &mut Lcg| -> Tensor { match arch { 0 => Tensor::single(vec![rng.int(-2, 2), rng.int(-2, 2), rng.int(-2, 2)]),
+        1 => Tensor::triple(vec![(0..3).map(|_| (0..3).map(|_| rng.int(-2, 2)).collect()).collect()]),
+        2 => Tensor::triple(vec![(0..2).map(|_| (0..2).map(|_| rng.int(-2, 2)).collect()).collect()]),
+        _ => Tensor::single(vec![rng.int(-2, 2), rng.int(-2, 2)]) } };
+    let xs: Vec<Tensor> = (0..4).map(|_| mk(&mut rng)).collect();
+    let ys: Vec<Tensor> = (0..4).map(|_| Tensor::single(vec![rng.int(-1, 1), rng.int(-1, 1)])).collect();
+    let xr: Vec<&Tensor> = xs.iter().collect();
+    let yr: Vec<&Tensor> = ys.iter().collect();
+    let (_, val_loss, val_acc) = net.learn(&xr, &yr, Some((&xr, &yr, 5)), 2, 2, None);
+    let (l1, a1) = net.validate(&xr, &yr, 1e-6);
+    let (l2, a2) = net.validate(&xr, &yr, 1e-6);
+    if l1.to_bits() != l2.to_bits() || a1.to_bits() != a2.to_bits() { return Err("two validate() calls on the trained network disagree: dropout is still active".into()); }
+    if !close(*val_loss.last().unwrap(), l1) || !close(*val_acc.last().unwrap(), a1) {
+        return Err(format!("learn() reported validation loss {} / accuracy {} for the last epoch, the dropout-free network gives {} / {}", val_loss.last().unwrap(), val_acc.last().unwrap(), l1, a1));
+    }
+    let mut plain = drop_arch(arch, None);
+    copy_params(&net, &mut plain);
+    for x in &xs {
+        if bits(&net.predict(x)) != bits(&plain.predict(x)) { return Err("after learn() the network does not predict like the same weights without dropout".into()); }
+    }
+    Ok(())
+}
+pub fn dispatch_dropout(cmd: &str, name: &str, arg: &str) -> Option<String> {
+    if name != "dropout.leak" { return None; }
+    if std::env::var("VERIF_SHOW_PANIC").is_err() { std::panic::set_hook(Box::new(|_| {})); }
+    let one = |a: usize, s: u64| -> Result<(), String> {
+        match std::panic::catch_unwind(move || dropout_one(a, s)) { Ok(r) => r, Err(_) => Err("building / training the network panicked".into()) }
+    };
+    if cmd == "run" {
+        let v: Vec<u64> = arg.split(|c: char| !c.is_ascii_digit()).filter(|x| !x.is_empty()).filter_map(|x| x.parse().ok()).collect();
+        if v.len() != 2 { return None; }
+        return Some(match one(v[0] as usize, v[1]) { Ok(()) => format!("{{\"failed\":false,\"input\":{{\"architecture\":{},\"seed\":{}}}}}", v[0], v[1]),
+            Err(e) => format!("{{\"failed\":true,\"input\":{{\"architecture\":{},\"seed\":{}}},\"detail\":{:?}}}", v[0], v[1], e) });
+    }
+    let mut tried = 0usize;
+    for a in 0..4usize { for s in 0..6u64 {
         tried += 1;
         if let Err(e) = one(a, s) { return Some(format!("{{\"failed\":true,\"tried\":{},\"input\":{{\"architecture\":{},\"seed\":{}}},\"detail\":{:?}}}", tried, a, s, e)); }
     }}
